@@ -101,7 +101,9 @@ class Interp:
 
     # ================================================================== raising
     def raise_(self, name, *args):
-        raise PyRaise(ExcVal(name, args))
+        e = ExcVal(name, args)
+        e.where = list(getattr(self, 'callstack', []))
+        raise PyRaise(e)
 
     # ================================================================== names
     def module_global(self, m: ModuleInfo, name: str):
@@ -756,7 +758,18 @@ class Interp:
             self.theory.after_init(self, o)
         return o
 
+    def is_dataclass_like(self, ci: ClassInfo) -> bool:
+        for c in ci.mro:
+            for d in c.decorators:
+                if ast.unparse(d).split('(')[0].rsplit('.', 1)[-1] in ('dataclass', 'pytree_dataclass'):
+                    return True
+        return any(b.rsplit('.', 1)[-1] in ('Module', 'AbstractLinearOperator') for b in ci.ext_bases)
+
     def dataclass_init(self, o: Obj, ci: ClassInfo, args, kwargs):
+        if not self.is_dataclass_like(ci):
+            if args or kwargs:
+                self.raise_('TypeError', f'{ci.name}() takes no arguments')
+            return
         flds = ci.all_fields()
         if not flds and (args or kwargs):
             self.raise_('TypeError', 'object() takes no arguments')
@@ -839,6 +852,9 @@ class Interp:
         if self.depth > 0:
             self.inlined.add(full)
         self.depth += 1
+        if not hasattr(self, 'callstack'):
+            self.callstack = []
+        self.callstack.append((full, 0))
         try:
             if isinstance(fi.node, ast.Lambda):
                 return self.ev(fi.node.body, fr)
@@ -849,6 +865,7 @@ class Interp:
             return None
         finally:
             self.depth -= 1
+            self.callstack.pop()
 
     # ================================================================== statements
     def exec_block(self, stmts, fr):
@@ -856,6 +873,8 @@ class Interp:
             self.exec_stmt(s, fr)
 
     def exec_stmt(self, s, fr):
+        if getattr(self, 'callstack', None):
+            self.callstack[-1] = (self.callstack[-1][0], getattr(s, 'lineno', 0))
         m = getattr(self, 'st_' + type(s).__name__, None)
         if m is None:
             raise Unsupported(f'statement {type(s).__name__}')
